@@ -195,3 +195,30 @@ Proof.
     - apply Nat.eqb_neq in E1. destruct Eb as [Eb|Eb]; [contradiction|]. now right. }
   rewrite Hj in Hc. cbn [length] in Hc. lia.
 Qed.
+
+Lemma joins_comm b x y : joins b x y = joins b y x.
+Proof. unfold joins. apply orb_comm. Qed.
+
+(* a decision procedure for `simple`, used to exhibit simple graphs *)
+Fixpoint simple_b (g : graph) : bool :=
+  match g with
+  | [] => true
+  | b :: r => negb (fst b =? snd b) && forallb (fun b' => negb (joins b' (fst b) (snd b))) r && simple_b r
+  end.
+
+Lemma simple_b_sound g : simple_b g = true -> simple g.
+Proof.
+  induction g as [|b g IH]; intros H.
+  - split; [intros b []|intros x y; cbn; lia].
+  - cbn [simple_b] in H. apply andb_true_iff in H. destruct H as [H Hs]. apply andb_true_iff in H.
+    destruct H as [Hl Hf]. destruct (IH Hs) as [Hl' Hc']. split.
+    + intros b' [<-|Hb']; [|now apply Hl']. apply negb_true_iff, Nat.eqb_neq in Hl. exact Hl.
+    + intros x y. unfold count_joins in *. cbn [filter]. destruct (joins b x y) eqn:Ej; [|apply Hc'].
+      assert (E : filter (fun b' => joins b' x y) g = []).
+      { rewrite forallb_forall in Hf. clear -Hf Ej. induction g as [|b' g IHg]; [reflexivity|]. cbn [filter].
+        assert (Hb' : joins b' x y = false).
+        { specialize (Hf b' (or_introl eq_refl)). apply negb_true_iff in Hf. apply joins_true in Ej.
+          destruct Ej as [[<- <-]|[<- <-]]; [exact Hf|]. now rewrite joins_comm. }
+        rewrite Hb'. apply IHg. intros z Hz. apply Hf. now right. }
+      rewrite E. cbn. lia.
+Qed.
